@@ -4,7 +4,8 @@ import re
 TOKEN_RE = re.compile(rb'[A-Za-z_][A-Za-z_0-9]*|\.?\d(?:[eEpP][+-]|[\'\w.])*|[{}()\[\];,<>=+\-*/&|!~^%?:.#]')
 BRACKETS = [b'{', b'}', b'(', b')', b'[', b']']
 ANGLES = [b'<', b'>']
-TAILS = [b'/* unterminated', b'"unterminated', b"'u", b'R"x(raw', b'#if 1\n', b'#define X \\', b'#define X(a', b'//x\\', b'(', b'{', b'[',
+TAILS = [b'#define MAX3(a, b,', b'typedef void (*fn)(int,', b'int f(int a,', b'x = (a + (b', b'struct S { int a;', b'enum E { A,', b'switch (x) { case 1:',
+         b'#include <', b'#if defined(', b'template <typename T, ', b'auto l = [=](int a', b'/* unterminated', b'"unterminated', b"'u", b'R"x(raw', b'#if 1\n', b'#define X \\', b'#define X(a', b'//x\\', b'(', b'{', b'[',
          b'template<', b'@interface', b'case', b'if (', b'do', b'else', b'\\', b'?', b'::', b'->', b'#', b'@"', b'$"', b'`']
 INSERTS = [b';', b'{', b'}', b'(', b')', b'#', b'\\', b'"', b"'", b'/*', b'*/', b'//', b'<', b'>', b'::', b'@', b'$', b'\x00', b'\xff',
            b'\xc3', b'\t', b'\r', b'\x0c', b'else', b'case', b'template', b'operator', b'#define', b'#endif', b'#if', b'[[', b']]']
